@@ -1,23 +1,66 @@
-import Sucds.Proofs.Serial
-import Sucds.Proofs.Rank9Rank1
-/-! # C19 — compressed sizes stay within the documented space bounds (partial)
+import Sucds.Proofs.SpaceBasic
+import Sucds.Proofs.SpaceRank9
+import Sucds.Proofs.SpaceDArray
+import Sucds.Proofs.SpaceEFTop
+import Sucds.Proofs.SpaceDacsTop
+import Sucds.Proofs.SpaceWavelet
+/-! # C19 — compressed sizes stay within the documented space bounds
 
-Proved: `size_in_bytes` of a `BitVector` is `8·⌈len/64⌉ + 16` bytes (so `8·size ≤ payload rounded to 64 + 256`),
-and the rank directory of `Rank9Sel` has `2·(⌈words/8⌉ + 1)` entries. The remaining bounds are evaluated on
-the real `size_in_bytes()` by the correspondence on every run (worst-case families). -/
+`size_in_bytes()` of a structure is `Codec.size` of its codec (C08: that is the number of bytes written). With
+`B = 8 · size_in_bytes` and the bounds in integer form (×100 where the property has decimals), for every build
+configuration and every input:
+* plain bit vector: `B = 64·⌈u/64⌉ + 128 ≤ payload rounded up to 64 + 256`; compact vector: `B = 64·⌈n·w/64⌉ + 256`;
+* Rank9Sel, every hint configuration: `100·B ≤ 132·u + 204800`;
+* DArray with `s` select indexes and `r` rank index: `100·B ≤ u·(100 + 102·s + 26·r) + 409600`;
+* EliasFano built for `n` values below `u`: `B ≤ n·⌊lg(u/n)⌋ + 7n + 8192`, `11n` with the rank index; the same for
+  `EliasFano::from_bits`, SArray (`n` = set bits, `u` = length; also without any set bit) and PrefixSummedEliasFano
+  (`u = sum + 1`);
+* DacsByte / DacsOpt: `100·B ≤ 132·(chunk bits + flag bits stored) + 204800·levels + 12800`;
+* WaveletMatrix<Rank9Sel>: `100·B ≤ width·(132·n + 204800) + 12800`.
+`⌊lg x⌋` is `(msbN x).getD 0` (what `broadword::msb` returns, 0 for `x = 0`). -/
 namespace Sucds.C19
-open Sucds Sucds.Codec
-theorem sum_map_const (l : List Nat) : (l.map fun _ => 8).sum = 8 * l.length := by
-  induction l with
-  | nil => simp
-  | cons a t ih => simp [ih]; omega
+open Sucds Sucds.Spec Sucds.Space Sucds.EFB
 
-theorem bitvector_size (b : BV) (h : b.Inv) : 8 * BV.codec.size b = 64 * ((b.len + 63) / 64) + 128 := by
-  simp only [BV.codec, Codec.iso, Codec.seq, Codec.vec, Codec.u64, Codec.uint]
-  have := sum_map_const b.words.toList
-  simp only [Array.length_toList] at this
-  rw [this, h.size]; omega
-theorem bitvector_bound (b : BV) (h : b.Inv) : 8 * BV.codec.size b ≤ 64 * ((b.len + 63) / 64) + 256 := by
-  rw [bitvector_size b h]; omega
-theorem rank9_directory_size : type_of% (@R9Index.pairs_size) := @R9Index.pairs_size
+def Statement : Prop :=
+  (∀ (b : BV), b.Inv → 8 * BV.codec.size b ≤ 64 * ((b.len + 63) / 64) + 256) ∧
+  (∀ (v : CV) (xs : List Nat), CV.Rep v xs → 8 * CV.codec.size v ≤ 64 * ((v.len * v.width + 63) / 64) + 256) ∧
+  (∀ (c : Cfg) (bv : BV), bv.Inv → ∀ h1 h0 : Bool,
+    ∃ x, R9.build c bv h1 h0 = .ok x ∧ 100 * (8 * R9.codec.size x) ≤ 132 * bv.len + 204800) ∧
+  (∀ (c : Cfg) (bv : BV), bv.Inv → ∀ rank sel0 : Bool,
+    100 * (8 * DA.codec.size (DA.build c bv rank sel0)) ≤
+      bv.len * (100 + 102 * (1 + (if sel0 then 1 else 0)) + 26 * (if rank then 1 else 0)) + 409600) ∧
+  (∀ (c : Cfg) (b : EFB) (xs : List Nat), Holds b xs → b.numVals ≠ 0 → b.lowLen = (msbN (b.univ / b.numVals)).getD 0 →
+    8 * EF.codec.size (EF.ofBuilder c b) ≤ b.numVals * b.lowLen + 7 * b.numVals + 8192 ∧
+    8 * EF.codec.size ((EF.ofBuilder c b).enableRank c) ≤ b.numVals * b.lowLen + 11 * b.numVals + 8192) ∧
+  (∀ (c : Cfg) (bv : BV), bv.Inv → bv.len < 2^64 →
+    ∃ s, SA.fromBV c bv = .ok s ∧
+      8 * SA.codec.size s ≤ cnt bv.bitAt bv.len * (msbN (bv.len / cnt bv.bitAt bv.len)).getD 0
+        + 7 * cnt bv.bitAt bv.len + 8192 ∧
+      8 * SA.codec.size (s.enableRank c) ≤ cnt bv.bitAt bv.len * (msbN (bv.len / cnt bv.bitAt bv.len)).getD 0
+        + 11 * cnt bv.bitAt bv.len + 8192) ∧
+  (∀ (c : Cfg) (vals : List Nat), vals ≠ [] → vals.sum + 1 < 2^64 →
+    ∃ p, PS.fromSlice c vals = .ok (some p) ∧
+      8 * PS.codec.size p ≤ vals.length * (msbN ((vals.sum + 1) / vals.length)).getD 0 + 7 * vals.length + 8192) ∧
+  (∀ (c : Cfg) (vals : List Nat), (∀ v ∈ vals, v < 2^64) →
+    100 * (8 * DacB.codec.size (DacB.fromSlice c vals)) ≤
+      132 * (DacB.chunkBits (DacB.fromSlice c vals) + flagBits (DacB.fromSlice c vals).flags)
+        + 204800 * (DacB.fromSlice c vals).numLevels + 12800) ∧
+  (∀ (c : Cfg) (vals : List Nat) (ml : Option Nat), (∀ v ∈ vals, v < 2^64) → vals.length < 2^57 →
+    ∀ d, DacO.fromSlice c vals ml = .ok (some d) →
+      100 * (8 * DacO.codec.size d) ≤ 132 * (DacO.chunkBits d + flagBits d.flags) + 204800 * d.numLevels + 12800) ∧
+  (∀ (c : Cfg) (seq : List Nat) (w : WM), WM.new c .r9 seq = .ok (some w) →
+    100 * (8 * (WM.codec .r9).size w) ≤ w.alphWidth * (132 * seq.length + 204800) + 12800)
+
+theorem holds : Statement :=
+  ⟨bitvector_bound, compactvector_bound, rank9sel_bound, darray_bound, eliasfano_bound, sarray_bound, psef_bound,
+   dacsbyte_bound, dacsopt_bound, waveletmatrix_r9_bound⟩
+
+/-- exact sizes of the two plain vectors -/
+theorem bitvector_exact (b : BV) (h : b.Inv) : 8 * BV.codec.size b = 64 * ((b.len + 63) / 64) + 128 := bitvector_bits b h
+theorem compactvector_exact (v : CV) (xs : List Nat) (h : CV.Rep v xs) :
+    8 * CV.codec.size v = 64 * ((v.len * v.width + 63) / 64) + 256 := compactvector_bits v xs h
+/-- `EliasFano::from_bits` -/
+theorem elias_fano_from_bits : type_of% (@eliasfano_fromBV_bound) := @eliasfano_fromBV_bound
+/-- the builder parameters the Elias-Fano bound needs are what `new` sets and `push` keeps -/
+theorem builder_parameters : type_of% (@new_params) := @new_params
 end Sucds.C19
